@@ -46,6 +46,8 @@ pub fn exp_reject() -> Vec<TimeVal> {
         TimeVal { label: "now-600_float", offset: Some(-600), fixed: None, float: true },
         fix("1700000000.0_float", json!(1700000000.0)),
         fix("0.5_float", json!(0.5)),
+        fix("-2.5_float", json!(-2.5)),
+        fix("-1.7e9_float", json!(-1700000000.0)),
     ]
 }
 pub fn exp_accept() -> Vec<TimeVal> {
@@ -133,6 +135,33 @@ pub fn one(cred_i: usize, cfg: &Cfg, exp: &TimeVal, nbf: &TimeVal, must_accept: 
         let Out::Ok(p) = drive::present(&mut h, sel, &pipeline::kb_args(cfg)) else { return };
         p
     };
+    // a holder who signs his own key-binding JWT decides its iat: whatever iat says, an expired or not yet valid
+    // credential stays rejected (the KB-JWT is otherwise exactly right: typ, nonce, aud, sd_hash, holder key)
+    if !must_accept && cfg.hk == Hk::Es {
+        if let Some(parts) = codec::parse(&pres, cfg.fmt) {
+            let exp_num = claims.get("exp").and_then(Value::as_i64);
+            let mut iats: Vec<(String, Value)> = vec![("0".into(), json!(0)), ("now-10y".into(), json!(now - 10 * Y)), ("now-100y".into(), json!(now - 100 * Y)), ("negative".into(), json!(-1)), ("now+10y".into(), json!(now + 10 * Y)), ("absent".into(), Value::Null)];
+            if let Some(e) = exp_num {
+                iats.push(("exp-1".into(), json!(e - 1)));
+                iats.push(("exp-3600".into(), json!(e - 3600)));
+            }
+            for (lab, iat) in iats {
+                let mut pl = json!({"nonce": pipeline::NONCE, "aud": pipeline::AUD, "sd_hash": codec::digest(&codec::Parts { jwt: parts.jwt.clone(), disclosures: parts.disclosures.clone(), kb: None }.sd_hash_input())});
+                if !iat.is_null() {
+                    pl["iat"] = iat;
+                }
+                let kb = tokens::sign_json(&json!({"alg": "ES256", "typ": "kb+jwt"}), &pl, jsonwebtoken::Algorithm::ES256, &Hk::Es.enc(0).unwrap());
+                let forged = codec::Parts { jwt: parts.jwt.clone(), disclosures: parts.disclosures.clone(), kb: Some(kb) }.serialize(cfg.fmt);
+                l.evals += 1;
+                let o = drive::verify(&forged, keys::issuer_dec(cfg.alg, 0), aud, nonce, cfg.fmt);
+                match &o {
+                    Out::Err { .. } => l.outcome("out_of_window_rejected_whatever_kb_iat"),
+                    Out::Ok(c) => l.violation(mk("ok_where_err_required", format!("c09_accepted_outside_window_with_kb_iat:{lab}"), format!("KB-JWT iat {lab}: accepted with claims {c}"))),
+                    Out::Panic { site, msg } => l.violation(mk("panic", site.clone(), msg.clone())),
+                }
+            }
+        }
+    }
     let first = drive::verify(&pres, keys::issuer_dec(cfg.alg, 0), aud, nonce, cfg.fmt);
     // the same presentation a second time in this process, and once in the other serialization: a rejection
     // must not be forgotten (and an acceptance not withdrawn)
@@ -249,7 +278,7 @@ pub fn run(rep: &Report) {
         let (e, n, acc) = &g[*gi];
         one(*ci, cfg, e, n, *acc, *direct, l);
     });
-    rep.scope_done(json!({"scope": "2 credentials x 2 formats x kb off/on x algs x 26 exp values x 14 nbf values x {through issuer+holder, harness-signed}", "grid_points": g.len(), "evaluations": rep.evals()}));
+    rep.scope_done(json!({"scope": "2 credentials x 2 formats x kb off/on x algs x 28 exp values x 14 nbf values x {through issuer+holder, harness-signed}", "grid_points": g.len(), "evaluations": rep.evals()}));
     // resolution sweep
     let quick = rep.quick();
     let sg = sweep_grid(quick);
